@@ -51,7 +51,9 @@ const EngineDef* find_engine(const std::string& name);
     ENGINE_DECL(fault) \
     ENGINE_DECL(eof) \
     ENGINE_DECL(decode) \
-    ENGINE_DECL(reencode)
+    ENGINE_DECL(reencode) \
+    ENGINE_DECL(sink) \
+    ENGINE_DECL(writers)
 #define ENGINE_DECL(n) void engine_##n(RunCtx&);
 ENGINE_LIST
 #undef ENGINE_DECL
